@@ -276,6 +276,53 @@ def t_option_base(E, cur, new):
         E.prove(not r.raised and arr._base == new, 'base set')
 
 
+def t_first_use_by_read(E, base):
+    """DataSegment.view_or_create_variable (reading A(i) in an expression) goes through the same check as a
+    store: an undeclared array is dimensioned 0/1..10 by its first use, even a failing one, and the
+    subscript is judged against those bounds."""
+    from .C10 import _segment
+    ds = _segment(E)
+    ds.arrays._base = base
+    i = E.int('i', -3, 14)
+    r = E.call(ds.view_or_create_variable, b'Q!', [i])
+    E.prove(b'Q!' in ds.arrays._dims and ds.arrays._dims.get(b'Q!') == [10], 'an undeclared array is dimensioned 0/1..10 on first use, also by a read')
+    lo = base or 0
+    if bool(i < 0):
+        E.prove(r.is_error(BASICError, error.IFC), 'negative subscript: Illegal function call')
+    elif bool(Or(i < lo, i > 10)):
+        E.prove(r.is_error(BASICError, error.SUBSCRIPT_OUT_OF_RANGE), 'outside the bounds: Subscript out of range')
+    else:
+        E.prove(not r.raised, 'inside the bounds: the element is read')
+    r2 = E.call(ds.arrays.allocate, b'Q!', [20])
+    E.prove(r2.is_error(BASICError, error.DUPLICATE_DEFINITION), 'DIM after the first use: Duplicate definition')
+
+
+def t_parse_indices(E, n):
+    """ExpressionParser.parse_indices hands the subscripts on as evaluated (negative ones included): which error
+    a subscript gives is decided where the array is known (check_dim), after first-use dimensioning."""
+    from pcbasic.basic.parser import expressions
+    from pcbasic.basic.base import codestream
+    vals = values_env()
+    ep = object.__new__(expressions.ExpressionParser)
+    ivals = [E.int('s%d' % k, -32768, 32767) for k in range(n)]
+    queue = []
+    for v in ivals:
+        o = E.new(numbers.Integer, None, vals)
+        E.call(o.from_int, v)
+        queue.append(o)
+    if E.mode == 'symbolic':
+        E.interp.contracts[expressions.ExpressionParser.parse] = lambda I, args, kw: (args[1].read(1), queue.pop(0))[1]
+    else:
+        ep.parse = lambda ins: (ins.read(1), queue.pop(0))[1]
+    ins = codestream.TokenisedStream()
+    ins.write(b'(' + b','.join([b'x'] * n) + b') rest')
+    ins.seek(0)
+    r = E.call(ep.parse_indices, ins)
+    E.prove(not r.raised, 'parsing subscripts raises nothing for any subscript value')
+    if not r.raised:
+        E.prove(len(r.value) == n and bool(And(*[a == b for a, b in zip(r.value, ivals)])), 'the subscripts are handed on as evaluated')
+
+
 TASKS = [
     Task('Arrays.index', t_index, cases=[{'rank': r, 'base': b} for r in (1, 2, 3, 4) for b in (0, 1)]),
     Task('Arrays.index (same shape used earlier under the other base)', t_index,
@@ -290,6 +337,8 @@ TASKS = [
          cases=[{'rank': r, 'base_state': b} for r in (1, 2, 3) for b in (None, 0, 1)]),
     Task('Arrays.erase_', t_erase, cases=[{'base': b} for b in (0, 1)]),
     Task('Arrays.option_base_', t_option_base, cases=[{'cur': c, 'new': n} for c in (None, 0, 1) for n in (0, 1)]),
+    Task('DataSegment.view_or_create_variable (first use by a read)', t_first_use_by_read, cases=[{'base': b} for b in (None, 0, 1)]),
+    Task('ExpressionParser.parse_indices', t_parse_indices, cases=[{'n': n} for n in (1, 2, 3)]),
 ]
 
 ASSUMPTIONS = [
